@@ -13,7 +13,7 @@ mod model;
 
 pub const OP_NAMES: &[&str] = &[
     "Submit", "Recv", "Tick", "Update", "Flush", "Deliver", "Drop", "DropAll", "DeliverAll", "Hold", "Broadcast", "Mutate", "Forge",
-    "Junk", "Api", "RecvAll", "ForgeSlice", "ForgeClash", "SubmitBurst",
+    "Junk", "Api", "RecvAll", "ForgeSlice", "ForgeClash", "SubmitBurst", "Churn",
 ];
 pub const K_SUBMIT: u8 = 0;
 pub const K_RECV: u8 = 1;
@@ -34,6 +34,7 @@ pub const K_RECVALL: u8 = 15;
 pub const K_FORGESLICE: u8 = 16;
 pub const K_FORGECLASH: u8 = 17;
 pub const K_SUBMITBURST: u8 = 18;
+pub const K_CHURN: u8 = 19;
 
 pub const UNREL: u8 = 0;
 pub const REL_ORD: u8 = 1;
